@@ -16,7 +16,7 @@ RULE = (
     'the first recorded error object iff raise_if_any. Non-trivial = >= 1 raising handler next to >= 1 other handler '
     'of the same event; distinct by canonical JSON.'
 )
-ASSUMPTIONS = ['virtual time', 'one scenario in five has event timeouts; handlers cut off by them are not judged here (C10), handlers that raised on their own are', 'no stop()', 'declared result types, where generated, admit every ordinary harness return value (int | str | None)']
+ASSUMPTIONS = ['virtual time', 'one scenario in five has event timeouts; handlers cut off by them are not judged here (C10), handlers that raised on their own are', 'stop() only in a dedicated sub-family (one case in six), where events accepted by a stopped bus, their ancestors and descendants are not judged', 'declared result types, where generated, admit every ordinary harness return value (int | str | None)']
 
 from hypothesis import strategies as _st
 
@@ -49,7 +49,15 @@ def _typed(draw):
 
 
 def strategy(tier):
-    return _typed()
+    from bvt.props._scen import with_stop
+
+    # one case in six: an actor stops one of the buses; a handler (e.g. a forward) that then fails because the target is stopped is one
+    # more failing handler - its event must still complete and keep the error it recorded
+    return _st.integers(0, 5).flatmap(lambda k: with_stop(scenario(P_STOP), 1) if k == 0 else _typed())
+
+
+P_STOP = Profile(raises=0.3, raise_kinds=['VE', 'custom', 'chain'], rets=['idx', 'none', 'str', 'excobj'], sync=0.3, min_buses=2, max_buses=3, fwd=0.8, typed_fwd=False, par=0.1, maxdepth=[1, 2], wild=0.2,
+                 actor_ops=['disp', 'disp', 'dispany', 'sleep', 'sleep', 'await', 'yield'], max_actor_ops=6, modes=['ff', 'ff', 'later', 'await'])
 
 
 def _raisers(F):
@@ -69,6 +77,8 @@ def classes(F):
         cl.append('accessor-call')
         if any(r['k'] == 'a-acc' and r['out'] == 'raise' for r in F.tr):
             cl.append('accessor-raised')
+    if any(r['k'] == 'enq-rej' and r.get('exc') == 'QueueShutDown' for r in F.tr):
+        cl.append('dispatch-or-forward-refused-by-a-stopped-bus')
     rs = _raisers(F)
     if rs:
         cl.append('raiser')
